@@ -391,8 +391,14 @@ func (w *Writer) write(opt *option) {
 	}
 
 	text := strings.Join(textList, opt.infix)
-	text = strings.ReplaceAll(text, " \n", "\n")
-	text = strings.ReplaceAll(text, "\n ", "\n")
+	// ReplaceAll does not rescan its own output: "x  \n" would keep one blank
+	// and lose it only in the next formatting pass
+	for strings.Contains(text, " \n") {
+		text = strings.ReplaceAll(text, " \n", "\n")
+	}
+	for strings.Contains(text, "\n ") {
+		text = strings.ReplaceAll(text, "\n ", "\n")
+	}
 	if opt.rawText {
 		_, _ = fmt.Fprint(w.writer, text)
 		return
